@@ -1,0 +1,16 @@
+//go:build verif
+
+package statsd
+
+import (
+	"context"
+	"time"
+
+	"github.com/atlassian/gostatsd/pkg/stats"
+)
+
+// VerifC16FlushData runs one complete flush (MetricFlusher.flushData) synchronously, exactly as
+// MetricFlusher.Run does on a tick.
+func (f *MetricFlusher) VerifC16FlushData(ctx context.Context, flushInterval time.Duration) {
+	f.flushData(ctx, flushInterval, stats.FromContext(ctx))
+}
